@@ -939,3 +939,36 @@ Proof.
   - vm_compute. reflexivity.
   - vm_compute. discriminate.
 Qed.
+
+(* a failed swap that reloads into ANOTHER register (a shadowed variable): the expected value of the next swap is never
+   refreshed.  cur := Load; for v > cur { if CAS(cur, v) { break }; if cur2 := Load; v <= cur2 { break } } *)
+Definition stale_retry_prog (v : expr) : list instr :=
+  [ILoad 0; IJmpIf (CNot (CLt (EReg 0) v)) 7; ICas 1 (EReg 0) v; IJmpIf (CNot (CEq (EReg 1) (EConst 0))) 7;
+   ILoad 2; IJmpIf (CNot (CLt (EReg 2) v)) 7; IJmp 1; IRet]%nat.
+Definition stale_retry_sec (l : loc) : section :=
+  {| s_cond := CTrue; s_loc := l; s_body := BRmw (stale_retry_prog (EArg 0)) |}.
+
+Example class_rejects_stale_retry : is_rmw_loop max_spec (stale_retry_prog ex_v) ex_v = false.
+Proof. vm_compute. reflexivity. Qed.
+
+Lemma run_app : forall s1 s2 c, run c (s1 ++ s2) = run (run c s1) s2.
+Proof. intros. unfold run. apply fold_left_app. Qed.
+
+(* thread 0 records 200, thread 1 records 100.  Thread 0 loads 0; thread 1 runs to completion (stores 100); thread 0's
+   swap 0 -> 200 fails, it reloads 100 into the other register, 200 > 100, so it tries 0 -> 200 again: after these 12
+   steps the configuration repeats every 6 steps of thread 0 — the call never returns, however long it runs. *)
+Definition stale_retry_threads : list thread := [start [stale_retry_sec 7%N] [200]; start [stale_retry_sec 7%N] [100]].
+Definition stale_retry_prefix : list nat := [0; 1; 1; 1; 1; 1; 0; 0; 0; 0; 0; 0]%nat.
+
+Lemma stale_retry_spins :
+  let c := run (fun _ => 0, stale_retry_threads) stale_retry_prefix in
+  all_done (snd c) = false /\
+  forall n, all_done (snd (run c (concat (repeat (repeat 0%nat 6) n)))) = false.
+Proof.
+  cbv zeta. set (c := run (fun _ => 0, stale_retry_threads) stale_retry_prefix).
+  assert (Hper : run c (repeat 0%nat 6) = c) by (vm_compute; reflexivity).
+  assert (Hnd : all_done (snd c) = false) by (vm_compute; reflexivity).
+  split; [exact Hnd|]. induction n as [|n IH]; [exact Hnd|].
+  change (concat (repeat (repeat 0%nat 6) (S n))) with (repeat 0%nat 6 ++ concat (repeat (repeat 0%nat 6) n)).
+  rewrite run_app, Hper. exact IH.
+Qed.
